@@ -9,6 +9,9 @@ import (
 	"github.com/DemoHn/Zn/pkg/value"
 )
 
+// maxFixedPrecision - the largest N accepted in {#.N}
+const maxFixedPrecision = 1000
+
 // fmtStack.fmtType
 const (
 	fmtTypeLiteral   int = 1
@@ -198,6 +201,10 @@ func parseNumberFormatter(formatter string, value *value.Number) (string, error)
 				switch state {
 				case sFixedSign:
 					numFixedPrecision = numFixedPrecision*10 + int(ch-'0')
+					// avoid integer overflow / absurd output sizes
+					if numFixedPrecision > maxFixedPrecision {
+						return "", zerr.NewErrorSLOT("无效的格式化字符串：小数位数过大")
+					}
 				default:
 					return "", zerr.NewErrorSLOT("无效的格式化字符串")
 				}
